@@ -3,6 +3,7 @@
 package corpus
 
 import (
+	"fmt"
 	"go/ast"
 	"go/parser"
 	"go/token"
@@ -98,13 +99,14 @@ var Tags = []string{
 	"{{$x}}", "{{", "}}", "{", "}", "/}", "//c\n", " //c\n", "/* c */", "/*", "*/", "/**", "<b>", "</b>", "<a href=\"{$x}\">",
 	"text", " ", "\n", "\t", "'", "\"", "\\", "$", "$x", ".", "?", ":", "|", ",", "=", "-", "0x", "1e", "1.", "ü", "\xff", "\x00",
 	"{alias a.b}", "{delcall x}", "{deltemplate x}", "{delpackage x}", "{foo}", "{/foo}", "{\\x}", "{ }", "{}",
+	"'\\uD83D'", "'\\uDE00'", "'\\uD83D\\u12'", "'\\u00e9\\uD83D\\uDE00'", "'\\u12'", "'\\x4'", "'\\", "{'\\uD83D'}", "{$x + '\\uDE00'}",
 	"range(1,2,0)", "isFirst($i)", "index($i)", "keys($m)", "f(", "f()", "(", ")", "[", "]", "?[", "?.", "?:", " and ", " or ", " not ",
 	"==", "!=", "<=", ">=", "<", ">", "+", "*", "/", "%", "true", "false", "null", "1 2 3", "'a' 'b'",
 }
 
 // ExprAtoms are building blocks for expression inputs.
 var ExprAtoms = []string{
-	"1", "-1", "0", "1.5", "1e3", "0x1F", "'a'", "'\\n'", "\"q\"", "true", "false", "null", "$a", "$a.b", "$a?.b", "$a[0]", "$a?[1]", "$a.0", "$ij.x",
+	"1", "-1", "0", "1.5", "1e3", "0x1F", "'a'", "'\\uD83D'", "'\\uD83D\\uDE00'", "'\\u00'", "'\\n'", "\"q\"", "true", "false", "null", "$a", "$a.b", "$a?.b", "$a[0]", "$a?[1]", "$a.0", "$ij.x",
 	"GLOBAL", "a.b.c", "f()", "f(1)", "f(1, $a)", "[1, 2]", "[]", "[:]", "['k': 1]", "['k': 1, 'j': [2]]", "(1)", "not $a", "-$a",
 	"+", "-", "*", "/", "%", "==", "!=", "<", ">", "<=", ">=", "and", "or", "?", ":", "?:", ",", "(", ")", "[", "]", "|", "}", "{", " ", "\n", "'", "\"", "\\",
 }
@@ -267,6 +269,12 @@ func PumpPair(r *simrt.RNG, size int) (small, big, kind string) {
 		unit = "x"
 	}
 	prefix := ""
+	if r.Intn(6) == 0 {
+		// one soydoc block with very many @param lines
+		// (every line names another param: a duplicate would end the parse at once)
+		u := []string{" * @param p%d\n", " * @param? q%d some words\n", " * text %d\n"}[r.Intn(3)]
+		return pumpBuild("{namespace a.b}\n/**\n", u, size), pumpBuild("{namespace a.b}\n/**\n", u, 4*size), "pump-soydoc"
+	}
 	switch r.Intn(4) {
 	case 1:
 		prefix = "{namespace a.b}\n/** @param x */\n{template .t}\n"
@@ -298,4 +306,17 @@ func RandomBytes(r *simrt.RNG, n int) string {
 		}
 	}
 	return string(b)
+}
+
+func pumpBuild(prefix, unit string, n int) string {
+	var sb strings.Builder
+	sb.WriteString(prefix)
+	for i := 0; sb.Len() < n; i++ {
+		if strings.Contains(unit, "%d") {
+			fmt.Fprintf(&sb, unit, i)
+		} else {
+			sb.WriteString(unit)
+		}
+	}
+	return sb.String()
 }
